@@ -176,7 +176,20 @@ func (c zeroCodeErr) Error() string { return "code " + strconv.Itoa(int(c)) }
 const (
 	nilPtrErrN   = 15
 	zeroCodeErrN = 18
+	// the library's OWN aggregate error type returned by a user callback as its error: the empty aggregate, a nil pointer of it
+	// and an aggregate of exactly one error are failures like any other, and keep their identity
+	emptyBatchErrN  = 21
+	nilBatchErrN    = 24
+	singleBatchErrN = 27
 )
+
+// permErr: an error that declares itself permanent (`Temporary() == false`, `Timeout() == false`), as *net.OpError,
+// *net.DNSError, *url.Error or a syscall.Errno do: an ordinary failure, retried like any other
+type permErr struct{}
+
+func (permErr) Error() string   { return "connection refused" }
+func (permErr) Temporary() bool { return false }
+func (permErr) Timeout() bool   { return false }
 
 func userError(n int) error {
 	errMu.Lock()
@@ -192,6 +205,18 @@ func userError(n int) error {
 	}
 	if n == zeroCodeErrN {
 		e = zeroCodeErr(0)
+		issued[n] = e
+		return e
+	}
+	switch n {
+	case emptyBatchErrN:
+		e = &flyt.BatchError{}
+	case nilBatchErrN:
+		e = (*flyt.BatchError)(nil)
+	case singleBatchErrN:
+		e = &flyt.BatchError{Errors: []error{errors.New("the one error of the aggregate")}}
+	}
+	if e != nil {
 		issued[n] = e
 		return e
 	}
@@ -213,7 +238,11 @@ func userError(n int) error {
 		case 1:
 			e = &userErr{n: n, inner: context.Canceled}
 		default:
-			e = &userErr{n: n, inner: errors.New("inner cause")}
+			if n%8 == 6 {
+				e = &userErr{n: n, inner: permErr{}}
+			} else {
+				e = &userErr{n: n, inner: errors.New("inner cause")}
+			}
 		}
 	}
 	issued[n] = e
